@@ -103,6 +103,13 @@ def run(ctx):
         for data, lvl in ((gens.payload(rnd, "digits", 4097), "L"), (gens.payload(rnd, "digits", 5500), "M"), (gens.payload(rnd, "alpha-nodigit", 4250), "L"),
                           (gens.payload(rnd, "bytes", 2953), "L")):
             invs.append(dict(factory=rnd.choice([None, "png"]), drawer=None, level=lvl, optimize=None, data=data, as_arg=False, ascii=False, tty=False, output=None))
+        # option values that are EMPTY strings: the command tests them by truthiness, i.e. treats them as absent - and that is how the
+        # model's CliInput is defined (an Option field is `some v` only for a non-empty v; found by the bridge theorem cli_src, whose
+        # hypotheses are exactly these three `!= some ""`)
+        for eo in (("factory",), ("drawer",), ("output",), ("factory", "drawer"), ("factory", "output"), ("factory", "drawer", "output")):
+            for ascii_flag in (False, True):
+                invs.append(dict(factory=None, drawer=None, level=rnd.choice([None, "H"]), optimize=None, data=b"empty option value", as_arg=rnd.random() < 0.5,
+                                 ascii=ascii_flag, tty=False, output=None, empty_opts=eo))
         # sink-independence pairs: same options once to stdout, once to --output
         pairs = []
         for i in range(40 if tier == "thorough" else 12):
@@ -127,6 +134,9 @@ def run(ctx):
                 args += ["--ascii"]
             if inv["output"]:
                 args += ["--output", inv["output"]]
+            for o, flag in (("factory", "--factory"), ("drawer", "--factory-drawer"), ("output", "--output")):
+                if o in inv.get("empty_opts", ()):
+                    args += [flag, ""]
             if inv["as_arg"]:
                 args += [inv["data"]]
             rc, out, err = run_cli(args, b"" if inv["as_arg"] else inv["data"], scratch, tty=inv["tty"])
